@@ -15,6 +15,7 @@ IN_SCALARS = ["alpha", "wave"]          # wave changes sign on the grid (|.| est
 IN_OTHERS = ["gammadown3", "Kdown3", "betaup3"]
 SCALAR_VARS = ["gammadet", "curv"]       # curv is a custom variable (function of the AurelCore instance)
 TENSOR_VARS = ["Kup3"]
+IN_REQUESTABLE = ["alpha"]               # an input column that is also a built-in variable: requesting it must leave it alone
 ESTIMATES = ["max", "p5"]                # p5 is a custom estimator
 STEPS = [1, 2, 3]
 
@@ -55,7 +56,7 @@ def run_spec(max_calls, simulate=None, seed=None, steps=STEPS, scalar_vars=SCALA
     defs = {"Steps": "{" + ",".join(map(str, steps)) + "}", "InScalars": st(IN_SCALARS), "InOthers": st(IN_OTHERS),
             "TemporalKeys": tkeys, "ScalarVars": st(scalar_vars),
             "TensorVars": st(TENSOR_VARS if tensor_vars is None else tensor_vars),
-            "Estimates": st(ESTIMATES if estimates is None else estimates)}
+            "Estimates": st(ESTIMATES if estimates is None else estimates), "InRequestable": st(IN_REQUESTABLE)}
     name, text, cl = wrapper("OverTime", defs)
     cfg = f"""SPECIFICATION Spec
 CONSTANTS
@@ -113,11 +114,24 @@ TKEY_ORDER = ["it", "iteration", "t", "time"]        # the driver sorts by the L
 TKEY_SCALE = {"it": 1, "iteration": 1, "t": 0.5, "time": 0.5}
 
 
+def first_key_permuted(order, tkeys):
+    """With two temporal keys the driver sorts by the LAST one; the other one may order the rows differently (an iteration
+    counter that was reset at a restart): used for the tables whose first row is an odd step."""
+    return len(tkeys) == 2 and order[0] % 2 == 1
+
+
+def key_value(k, s, order, tkeys):
+    present = [x for x in TKEY_ORDER if x in tkeys]
+    if first_key_permuted(order, tkeys) and k == present[0]:
+        s = (s % len(order)) + 1
+    return int(s) if TKEY_SCALE[k] == 1 else TKEY_SCALE[k] * s
+
+
 def make_table(order, tkeys):
     t = {}
     for k in TKEY_ORDER:
         if k in tkeys:
-            t[k] = [int(s) if TKEY_SCALE[k] == 1 else TKEY_SCALE[k] * s for s in order]
+            t[k] = [key_value(k, s, order, tkeys) for s in order]
     for c in IN_SCALARS + IN_OTHERS:
         t[c] = [step_inputs(s)[c].copy() for s in order]
     return t
@@ -256,7 +270,8 @@ def check_behaviour(job):
                 break
     if len(tkeys) == 2:
         a, b = [k for k in TKEY_ORDER if k in tkeys]
-        if [float(x) / TKEY_SCALE[a] for x in data[a]] != [float(x) / TKEY_SCALE[b] for x in data[b]]:
+        init = list(st["init_order"])
+        if [float(x) for x in data[a]] != [float(key_value(a, s, init, tkeys)) for s in steps]:
             findings.append(("C14", {"clause": "InputsPreserved", "column_kind": "temporal"},
                              f"{where}: the two temporal columns were not permuted together: {list(data[a])} / {list(data[b])}", {"state": st}))
     return findings
